@@ -93,7 +93,10 @@ class Gen:
             r.shuffle(items)
             return ("select", items)
         if k < 0.35:
-            return ("where", self.bool_e(cols))
+            e = self.bool_e(cols)
+            if self.extended and r.random() < 0.35 and not neg_of_literal(e):
+                return ("where", e, "str")          # the same predicate written as SQL text
+            return ("where", e)
         if k < 0.48:
             return self.order_step(cols, total=r.random() < 0.7)
         if k < 0.56:
@@ -126,6 +129,11 @@ class Gen:
                 kv[c] = r.choice([0, 7, -1])
             if strs and (not kv or r.random() < 0.3):
                 kv[r.choice(strs)] = r.choice(["x", "", "q"])
+            if self.extended and r.random() < 0.35:
+                # a dict value TOGETHER with subset= (PySpark ignores the subset then): strict subset / permutation / superset of the keys
+                keys = list(kv)
+                sub = r.choice([keys[:max(1, len(keys) - 1)], list(reversed(keys)), keys + [c for c in names if c not in kv][:1]])
+                return ("fillna", kv, sub)
             return ("fillna", kv)
         if k < 0.48 and ints:
             tgt = r.sample(ints, r.randint(1, len(ints)))
@@ -232,7 +240,7 @@ def cols_after(step, cols):
             return None
         return {n: t for n, t in zip(step[1], cols.values())}
     if k == "fillna":
-        if not step[1] or any(c not in cols for c in step[1]):
+        if not step[1] or any(c not in cols for c in step[1]) or (len(step) > 2 and any(c not in cols for c in step[2])):
             return None
         for c, v in step[1].items():
             if (cols[c] == "int") != isinstance(v, int):
@@ -331,6 +339,8 @@ def step_str(step) -> str:
     if k == "select":
         return "select(" + ", ".join(f"{rel.e_str(e)} as {n}" for e, n in step[1]) + ")"
     if k == "where":
+        if len(step) > 2 and step[2] == "str":
+            return f"where({e_sql(step[1], top=True)!r})"
         return f"where({rel.e_str(step[1])})"
     if k == "orderBy":
         return "orderBy(" + ", ".join(
@@ -343,6 +353,50 @@ def step_str(step) -> str:
     if k == "agg":
         return f"groupBy({step[1]}).agg({', '.join(f'{fn}({c}) as {o}' for fn, c, o in step[2])})"
     return f"{k}({', '.join(map(str, step[1:]))})"
+
+
+SQL_OPS = {"Add": "+", "Sub": "-", "Mul": "*", "Eq": "=", "Neq": "<>", "Lt": "<", "Le": "<=", "Gt": ">", "Ge": ">=",
+           "And": "AND", "Or": "OR", "NullSafeEq": "<=>"}
+
+
+def neg_of_literal(e) -> bool:
+    """`- 1` in SQL text is read back as the literal -1, not as a negation: such predicates are not written as text"""
+    return isinstance(e, tuple) and ((e[0] == "neg" and e[1][0] == "lit") or any(neg_of_literal(x) for x in e[1:]))
+
+
+def e_sql(e, top=False) -> str:
+    """Spark SQL text of an expression, fully parenthesised below the top level and BARE at the top level (so that a
+    top-level OR / NOT / BETWEEN ... AND arrives unparenthesised, as a user writes it in where("...") )"""
+    k = e[0]
+    if k == "col":
+        return e[1]
+    if k == "lit":
+        v = e[1]
+        if isinstance(v, bool):
+            return "true" if v else "false"
+        if isinstance(v, int):
+            return str(v) if v >= 0 else f"({v})"
+        if v is None:
+            return "NULL"
+        return "'" + str(v).replace("'", "''") + "'"
+    if k == "bin":
+        if top and e[1] == "And" and e[2][0] == "bin" and e[3][0] == "bin" and e[2][1] == "Ge" and e[3][1] == "Le" \
+                and e[2][2] == e[3][2] and e[2][2][0] == "col" and e[2][3][0] == "lit" and e[3][3][0] == "lit":
+            return f"{e_sql(e[2][2])} BETWEEN {e_sql(e[2][3])} AND {e_sql(e[3][3])}"
+        t = f"{e_sql(e[2])} {SQL_OPS[e[1]]} {e_sql(e[3])}"
+    elif k == "not":
+        t = f"NOT {e_sql(e[1])}"
+    elif k == "neg":
+        t = f"- {e_sql(e[1])}"
+    elif k == "isnull":
+        t = f"{e_sql(e[1])} IS NULL"
+    elif k == "if":
+        return f"CASE WHEN {e_sql(e[1])} THEN {e_sql(e[2])} ELSE {e_sql(e[3])} END"
+    elif k == "coalesce":
+        return f"COALESCE({e_sql(e[1])}, {e_sql(e[2])})"
+    else:
+        raise ValueError(e)
+    return t if top else f"({t})"
 
 
 def flags_arg(step):
@@ -367,6 +421,8 @@ def apply_step(df, step, F):
                 args.append(rel.e_sf(e, F).alias(n))
         return df.select(*args)
     if k == "where":
+        if len(step) > 2 and step[2] == "str":      # the predicate as SQL text: where("a = 2 OR b IS NULL")
+            return df.where(e_sql(step[1], top=True))
         return df.where(rel.e_sf(step[1], F))
     if k == "orderBy":
         ks = []
@@ -396,6 +452,8 @@ def apply_step(df, step, F):
         return df.toDF(*step[1])
     if k == "fillna":
         kv = step[1]
+        if len(step) > 2:          # dict value + subset=: the dict decides which columns are filled
+            return df.na.fill(dict(kv), subset=list(step[2])) if hash(repr(kv)) % 2 else df.fillna(dict(kv), subset=list(step[2]))
         vals = set(kv.values())
         if len(vals) == 1 and hash(repr(kv)) % 3 == 0:
             return df.fillna(next(iter(vals)), subset=list(kv))
@@ -441,7 +499,7 @@ def x_agg(item, exp):
     a = item.this
     t = type(a).__name__
     if isinstance(a, exp.Count):
-        if a.args.get("expressions") or a.args.get("big_int"):
+        if a.args.get("expressions"):
             raise rel.NotExportable("count with extra arguments")
         if isinstance(a.this, exp.Star):
             return f"((ACountStar, {strlit('*')}), {strlit(item.alias)})"
@@ -536,7 +594,7 @@ def x_stage(node, exp, prev_name, cte_names):
                                                    and not fn.expressions)):
             raise rel.NotExportable("window function is not ROW_NUMBER()")
         for k, v in w.args.items():
-            if v and k not in ("this", "partition_by", "order"):
+            if v and k not in ("this", "partition_by", "order") and not (k == "over" and str(v).upper() == "OVER"):
                 raise rel.NotExportable(f"window arg {k}")
         part = []
         for c in w.args.get("partition_by") or []:
@@ -630,6 +688,10 @@ def make_programs(ctx, extended=False):
             m.append(("withColumn", "c", ("coalesce", ("col", i0), ("lit", 9))))
         m.append(("select", [(("col", c), c) for c in reversed(names)]))
         m.append(("where", ("isnull", ("col", names[-1]))))
+        if extended:
+            # a predicate written as SQL text with a top-level OR (it arrives unparenthesised)
+            m.append(("where", ("bin", "Or", ("isnull", ("col", names[-1])),
+                                ("bin", "Eq", ("col", names[0]), ("lit", 2 if cols[names[0]] == "int" else "x"))), "str"))
         m.append(("orderBy", [(("col", c), False, None) for c in names]))
         m.append(("orderBy", [(("col", c), True, None) for c in reversed(names)]))
         m.append(("orderBy", [(("col", names[0]), True, True)]))
@@ -649,6 +711,8 @@ def make_programs(ctx, extended=False):
         m.append(("toDF", [n + "_" for n in names]))
         if ints:
             m.append(("fillna", {ints[0]: 0}))
+            if extended and len(ints) > 1:
+                m.append(("fillna", {ints[0]: 0, ints[1]: 7}, [ints[1]]))
             m.append(("replace", [ints[0]], [(1, 7)]))
             m.append(("unpivot", [c for c in names if c not in ints][:1], ints[:2], "var", "val"))
             m.append(("agg", [names[-1]] if names[-1] not in ints[:1] else [], [("sum", ints[0], "g0"), ("count_star", "*", "g1")]))
@@ -673,7 +737,7 @@ def make_programs(ctx, extended=False):
 
     expand([], cols0, 2 if ctx.tier == "quick" else 3)
     n_exh = len(progs)
-    n_rand = 260 if ctx.tier == "quick" else (2300 if extended else 3000)
+    n_rand = (230 if extended else 260) if ctx.tier == "quick" else (2300 if extended else 3000)
     maxlen = 6 if ctx.tier == "quick" else 10
     for _ in range(n_rand):
         cols = dict(cols0)
@@ -720,6 +784,23 @@ def make_programs(ctx, extended=False):
          ("orderBy", [(("col", "y"), True, False), (("col", "x"), False, True), (("col", "z"), False, None)]), ("limit", 3)],
         [("dropna", "all", 2, []), ("where", ("isnull", ("col", "s"))), ("fillna", {"s": "q"}), ("dropna", "all", None, ["a"]),
          ("dropna", "any", None, []), ("distinct",), ("toDF", ["num_nulls", "b", "c"]), ("rename", "num_nulls", "a")],
+        # an ORDER BY expression written into the SELECT that redefines a column it mentions reads the SELECT's input (known finding)
+        [("withColumn", "a", ("bin", "Mul", ("col", "a"), ("lit", -1))),
+         ("orderBy", [(("bin", "Add", ("col", "a"), ("lit", 0)), False, None), (("col", "b"), False, None), (("col", "s"), False, None), (("col", "a"), False, None)])],
+        # fillna with a dict value and subset= (strict subset / permutation / superset of the keys): the dict decides
+        [("fillna", {"a": 0, "b": 7}, ["b"])],
+        [("fillna", {"a": 0, "b": 7}, ["b", "a"]), ("where", ("bin", "Eq", ("col", "a"), ("lit", 0)))],
+        [("where", ("isnull", ("col", "s"))), ("fillna", {"b": 5, "s": "q"}, ["s", "b", "a"])],
+        # predicates given as SQL text: top-level OR / NOT / BETWEEN as the 2nd / 3rd filter of one SELECT, after dropna,
+        # mixed with Column-built predicates
+        [("where", ("bin", "Eq", ("col", "a"), ("lit", 2)), "str"),
+         ("where", ("bin", "Or", ("bin", "Eq", ("col", "b"), ("lit", 1)), ("bin", "Eq", ("col", "s"), ("lit", "x"))), "str")],
+        [("where", ("bin", "Or", ("bin", "Eq", ("col", "b"), ("lit", 1)), ("bin", "Eq", ("col", "s"), ("lit", "x"))), "str"),
+         ("where", ("bin", "Eq", ("col", "a"), ("lit", 1)))],
+        [("dropna", "any", None, []), ("where", ("bin", "Or", ("bin", "Eq", ("col", "b"), ("lit", 5)), ("bin", "Eq", ("col", "s"), ("lit", "x"))), "str")],
+        [("where", ("bin", "Gt", ("col", "b"), ("lit", 0))), ("where", ("not", ("bin", "Eq", ("col", "a"), ("lit", 1))), "str"),
+         ("where", ("bin", "And", ("bin", "Ge", ("col", "b"), ("lit", 1)), ("bin", "Le", ("col", "b"), ("lit", 2))), "str"),
+         ("where", ("bin", "Or", ("isnull", ("col", "s")), ("bin", "Lt", ("col", "a"), ("lit", 3))), "str")],
         # descending keys asked for through `ascending=`: NULLs of a descending key come last (Spark), total order
         [("orderByFlags", [("a", False), ("b", True), ("s", False)], "list")],
         [("orderByFlags", [("s", False), ("b", False), ("a", False)], "scalar"), ("select", [(("col", "a"), "a"), (("col", "s"), "s"), (("col", "b"), "b")])],
@@ -739,10 +820,30 @@ ORDER_WITNESS_PROGRAM = [("orderBy", [(("col", "s"), False, False), (("col", "a"
 
 
 
+def redefined_by(step, cols_before) -> set:
+    """names whose value after a select-class step is not the column of that name before it (the step writes the open
+    SELECT's list; an ORDER BY expression written into the same SELECT resolves these names to the SELECT's INPUT)"""
+    k = step[0]
+    old = list(cols_before)
+    if k == "select":
+        return {n for e, n in step[1] if e != ("col", n)}
+    if k == "withColumn":
+        return {step[1]}
+    if k == "rename":
+        return {step[2]} if step[2] != step[1] else set()
+    if k == "toDF":
+        return {n for i, n in enumerate(step[1]) if i >= len(old) or old[i] != n}
+    if k == "fillna":
+        return set(step[1])
+    if k == "replace":
+        return set(step[1])
+    return set()
+
+
 def signature(steps, flags):
     """shape predicate of a deviation (impl vs spec), used to match known findings"""
     kinds = ["orderBy" if s[0] == "orderByFlags" else s[0] for s in steps]     # the same method, other argument form
-    cols = {"a": "int", "b": "int", "s": "str"}
+    prev_cols = cols = {"a": "int", "b": "int", "s": "str"}
     for st in steps:
         if st[0] == "dropna" and "num_nulls" in cols:
             return "C01/dropna-on-frame-with-column-named-num_nulls"
@@ -750,6 +851,14 @@ def signature(steps, flags):
             return "C01/dropDuplicates-on-frame-with-column-named-row_num"
         if st[0] == "dropna" and st[2] is not None and st[2] < 1 and flags.get("raised") and flags.get("exc") == "RuntimeError":
             return "C01/dropna-thresh-below-1-raises"
+        cols = cols_after(st, cols) or cols
+    cols = {"a": "int", "b": "int", "s": "str"}
+    for i, st in enumerate(steps):
+        if st[0] == "orderBy" and i > 0:
+            mentioned = set().union(*[rel.e_cols(e) for e, _, _ in st[1] if e[0] != "col"] or [set()])
+            if mentioned & redefined_by(steps[i - 1], prev_cols):
+                return "C01/orderBy-expression-key-reads-input-of-redefining-select"
+        prev_cols = cols
         cols = cols_after(st, cols) or cols
     for i in range(len(kinds) - 1):
         if kinds[i + 1] == "toDF" and "orderBy" in kinds[: i + 1]:
@@ -797,6 +906,14 @@ def run(ctx: core.Ctx):
         session._conn.execute("PRAGMA threads=1")
     except Exception:
         pass
+    import sqlglot
+    executed = []                      # SQL texts handed to the engine
+    run_sql = session._execute
+
+    def logging_execute(sql, *a, **k):
+        executed.append(sql)
+        return run_sql(sql, *a, **k)
+    session._execute = logging_execute
     progs, n_exh = make_programs(ctx, extended=True)
     items, metas = [], []
     hist_len, hist_kind, hist_mode, n_raise = {}, {}, {}, 0
@@ -816,12 +933,14 @@ def run(ctx: core.Ctx):
                 df = session.createDataFrame(rows, SCHEMA)
                 for st in steps:
                     df = apply_step(df, st, F)
-                try:
-                    exported = f"(Some {export_stages(df.expression, exp)})"
-                except rel.NotExportable as ne:
-                    exported = "None"
-                    exc_export = str(ne)
+                del executed[:]
                 got = df.collect()
+                try:
+                    # T2 judges the TEXT that was executed: it is read back with the engine dialect's grammar, so that
+                    # what the printed text means (operator precedence, missing parentheses) is compared with the model
+                    exported = f"(Some {export_stages(sqlglot.parse_one(executed[-1], dialect='duckdb'), exp)})"
+                except (rel.NotExportable, sqlglot.errors.SqlglotError, IndexError):
+                    exported = "None"
                 gcols = list(got[0].__fields__) if got else list(df.columns)
                 impl = f"(Some ({listlit([strlit(c) for c in gcols])}, {listlit([rel.row_coq(tuple(r)) for r in got])}))"
             except rel.NotExportable:
@@ -966,6 +1085,8 @@ def _fix_step(st):
         return (k, [tuple(x) for x in st[1]], st[2])
     if k in ("drop", "toDF", "dropDup"):
         return (k, list(st[1]))
+    if k == "fillna" and len(st) > 2:
+        return (k, st[1], list(st[2]))
     if k == "replace":
         return (k, list(st[1]), [tuple(x) for x in st[2]])
     if k == "dropna":
